@@ -133,16 +133,21 @@ def smvTail (sdir : List Name) (sname : Name) (ddir : List Name) (dname : Name) 
     match N.atPath ddir (sUnlink dname) t with
     | .ok (_, t1) => smvGo sdir sname nd ddir dname t1
     | .error _ => smvGo sdir sname nd ddir dname t
-  | .ok (.dir, _) => smvGo sdir sname nd (ddir ++ [dname]) sname t
+  | .ok (.dir, _) =>
+    if sdir ++ [sname] = ddir ++ [dname] then .error .intoself
+    else smvGo sdir sname nd (ddir ++ [dname]) sname t
   | .error .notfound => smvGo sdir sname nd ddir dname t
   | .error e => .error e
 
-/-- move -/
+/-- move (a directory is not moved into itself or below itself) -/
 def smv (src dst : Path) (t : N) : Except Err (Unit × N) :=
   thenS (N.atPath (if dst.trailing then dst.comps else dst.split.1) sIsDir t) fun _ =>
   thenS (N.atPath src.split.1 sIsDir t) fun _ =>
   thenS (N.atPath src.split.1 (sChild src.split.2) t) fun _ =>
   thenS (N.atPath (src.split.1 ++ [src.split.2]) sGet t) fun nd =>
+  if nd.kind = .dir ∧ (src.split.1 ++ [src.split.2]) <+: (if dst.trailing then dst.comps else dst.split.1) then
+    .error .intoself
+  else
   smvTail src.split.1 src.split.2 (if dst.trailing then dst.comps else dst.split.1)
     (if dst.trailing then src.split.2 else dst.split.2) nd t
 
